@@ -209,7 +209,7 @@ func Minimal(c *Case, cfg *Config, k int) *Case {
 			calls = append(calls, c.Calls[i])
 		}
 	}
-	d := &Case{Seed: c.Seed}
+	d := &Case{Seed: c.Seed, ExitCode: c.ExitCode}
 	remap := map[int]int{}
 	for i, f := range c.Funcs {
 		if keep[i] && f.Shape != "getter" {
@@ -248,7 +248,7 @@ func Handmade(cfg *Config, params, results, op string, exact, stateful bool, loc
 	}
 	b.I(body...)
 	f := b.fn(op, "handmade", exact, stateful)
-	c := &Case{Seed: 1}
+	c := &Case{Seed: 1, ExitCode: -1}
 	c.Funcs = append(c.Funcs, *f)
 	c.Funcs = append(c.Funcs, Getters...)
 	for _, a := range calls {
@@ -263,4 +263,15 @@ func Handmade(cfg *Config, params, results, op string, exact, stateful bool, loc
 	}
 	c.Wat = Render(c.Seed, cfg, c)
 	return c
+}
+
+// ShapeClass is the class used in keys about a function as a whole (for
+// instance a translator that panics on it): "value" for the result-carrying
+// br_if / br_table shapes, the shape name otherwise.
+func (f *Func) ShapeClass() string {
+	switch f.Shape {
+	case "brtableval", "brifval":
+		return "value"
+	}
+	return f.Shape
 }
